@@ -14,7 +14,7 @@ Adapter (this file) drives the real code through its public API:
   chem …     real `Chemical` objects: ~45 bundled chemicals × 3 reference phases, the same with Hfus/Tm given to
              the constructor, with Tm/Tb moved through the public setters, phase-locked chemicals through every
              public route (Chemical(phase=), at_state in place, at_state(copy=True), Chemical.copy of a locked one),
-             Chemical.copy histories (another Cn method selected for the original or the copy, with/without reset_free_energies), and blank chemicals with arbitrary Tm, Tb, Hfus, Sfus, Hvap and polynomial heat capacities.
+             Chemical.copy_models_from (explicit name lists and automatic mode), Chemical.copy histories (another Cn method selected for the original or the copy, with/without reset_free_energies), and blank chemicals with arbitrary Tm, Tb, Hfus, Sfus, Hvap and polynomial heat capacities.
              `wiring` reads the functor class and the constants actually stored in chemical.H.s/.l/.g, chemical.S.*
              and compares them with the model's `_init_energies` fed the integrals measured on the real Cn objects
              (table `tab`); `H`/`S` compare values.
@@ -65,7 +65,7 @@ CANDIDATES = ['Water', 'Ethanol', 'Methanol', 'Propanol', 'Butanol', 'Benzene', 
               'Styrene', 'Isopropanol', 'Isobutanol', 'SO2', 'H2S', 'Argon', 'CO', 'H2', 'HCl', 'Acetonitrile',
               'Tetrahydrofuran', 'DMSO', 'EthyleneGlycol']
 XPHASES = [('l', 'g'), ('s', 'l'), ('s', 'l', 'g'), ('l', 'L'), ('L', 'g', 's'), ('g', 's'), ('l', 'L', 'g'), ('S', 'l')]
-RESET_KINDS = ('Tb', 'Tm', 'phase_ref', 'reset')
+RESET_KINDS = ('Tb', 'Tm', 'phase_ref', 'reset', 'cmf')
 LOCK_ROUTES = ['ctor', 'inplace', 'copy', 'copy', 'copyof', 'copyof-inplace', 'relock']
 LOCK_GRID_IDS = ['Water', 'Ethanol', 'CO2', 'Benzene', 'Glycerol']
 MIX_IDS = ['Water', 'Ethanol', 'Methanol', 'Glycerol', 'Propane', 'N2', 'Octanol', 'Benzene', 'CO2', 'AceticAcid', 'Hexane', 'Ammonia']
@@ -260,6 +260,22 @@ def get_chem(spec):
             switch_cn_method(getattr(who.Cn, ph), k, who)
             if variant != 'copy-noreset': who.reset_free_energies()
         c = A if subject == 'A' else B
+    elif kind == 'cmf':
+        # cmf <ID> <ref> <OtherID> <names|auto>: Chemical.copy_models_from.  With an explicit name list (e.g. Cn, Hvap, Cn+Hvap,
+        # V+Cn, V) the models of a bundled chemical are replaced by those of another one; `auto` fills a blank chemical that
+        # has the data of <ID> but no models at all with every model of <OtherID>.
+        ID, ref, other_ID, names = spec[1], spec[2], spec[3], spec[4]
+        other = tmo.Chemical(other_ID, cache=False)
+        if names == 'auto':
+            base = get_chem(('db', ID, ref))
+            # (no Tc, Pc, omega: the blank chemical must not estimate models of its own, or `auto` has nothing to fill)
+            c = tmo.Chemical.blank('Synth', phase_ref=ref, MW=base.MW, Tm=base.Tm, Tb=base.Tb, Hfus=base.Hfus)
+            c.copy_models_from(other)
+            c.Sfus = base.Hfus / base.Tm
+            c.S0 = 50.0
+        else:
+            c = tmo.Chemical(ID, phase_ref=ref, cache=False)
+            c.copy_models_from(other, names.split('+'))
     elif kind == 'synth':
         ref, Tm, Tb, Hfus, Sfus, Hvap, S0 = spec[1], ptok(spec[2]), ptok(spec[3]), ptok(spec[4]), ptok(spec[5]), ptok(spec[6]), float(spec[7])
         data = dict(phase_ref=ref, MW=50.)
@@ -356,7 +372,7 @@ class Session:
         kind = spec[0] if spec else ''
         # (since fix C07-5 the Tm / Hfus setters keep a derived Sfus consistent: `set` chemicals are `auto` too unless the
         # user gave them an Sfus of their own first)
-        self.sfus_auto = kind in ('db', 'ctor', 'lock', 'copy') or (kind == 'set' and not any(t.startswith('Sfus=') for t in spec))
+        self.sfus_auto = kind in ('db', 'ctor', 'lock', 'copy') or (kind == 'cmf' and spec[4] != 'auto') or (kind == 'set' and not any(t.startswith('Sfus=') for t in spec))
         self.cns = cn_objects(c)
         self.sent = set()
         self.cnname = {id(o): 'Cn.' + p for p, o in self.cns.items()}
@@ -914,22 +930,39 @@ def run_mixupd(t, emit, failures, tags, idx):
                                          f'update: mixture.{kd} = {v!r} but sum n_i {kd}_i(phase,T,P) of the current pure '
                                          f'values = {lin!r}'})
     evaluate('before', n)
-    before = {kd: _try(lambda kd=kd: pure(kd)) for kd in ('H', 'S', 'Cn')}
-    if kind == 'Hfus': target.Hfus = (target.Hfus or 0.0) + amount
-    elif kind == 'Sfus': target.Sfus = (target.Sfus or 0.0) + amount / 100.0
-    elif kind == 'S0': target.S0 = (target.S0 or 0.0) + amount / 100.0
-    elif kind == 'Cn': getattr(target.Cn, ph).add_method(20.0 + abs(amount) / 100.0)
-    # updates that go through Chemical.reset_free_energies (new functors; fix C07-4 keeps the handle objects)
-    elif kind == 'Tb': target.Tb = min(target.Tb + abs(amount) / 100.0, 0.95 * (target.Tc or 1e9))
-    elif kind == 'Tm': target.Tm = target.Tm + amount / 200.0
-    elif kind == 'phase_ref': target.phase_ref = {'s': 'l', 'l': 'g', 'g': 's'}[target.phase_ref] if amount > 0 else \
-        {'s': 'g', 'l': 's', 'g': 'l'}[target.phase_ref]
-    elif kind == 'reset':
-        getattr(target.Cn, ph).add_method(20.0 + abs(amount) / 100.0); target.reset_free_energies()
-    else: raise ValueError('unknown update ' + kind)
-    after = {kd: _try(lambda kd=kd: pure(kd)) for kd in ('H', 'S', 'Cn')}
-    if any(before[kd] != after[kd] for kd in before): tags.append('mixupd:pure-values-changed:' + kind)
-    else: tags.append('mixupd:no-effect:' + kind)
+    # `kind` may be a '+'-joined HISTORY of edits (e.g. Tb+Tb+phase_ref): the mixture is re-evaluated after every one, so
+    # that the second and later edits act on whatever the first one left behind (handle objects, functors, constants)
+    history = kind.split('+')
+    tags.append(f'mixupd:edits:{len(history)}')
+    any_reset = any(kd in RESET_KINDS for kd in history)
+    for step, kind in enumerate(history):
+        amt = amount * (1.0 - 0.45 * step) * (-1.0 if step % 2 else 1.0)
+        before = {kd: _try(lambda kd=kd: pure(kd)) for kd in ('H', 'S', 'Cn')}
+        if kind == 'Hfus': target.Hfus = (target.Hfus or 0.0) + amt
+        elif kind == 'Sfus': target.Sfus = (target.Sfus or 0.0) + amt / 100.0
+        elif kind == 'S0': target.S0 = (target.S0 or 0.0) + amt / 100.0
+        elif kind == 'Cn': getattr(target.Cn, ph).add_method(20.0 + abs(amt) / 100.0 + step)
+        # updates that go through Chemical.reset_free_energies (new functors; fix C07-4 keeps the handle objects)
+        elif kind == 'Tb': target.Tb = min(target.Tb + amt / 100.0, 0.95 * (target.Tc or 1e9))
+        elif kind == 'Tm': target.Tm = target.Tm + amt / 200.0
+        elif kind == 'phase_ref': target.phase_ref = {'s': 'l', 'l': 'g', 'g': 's'}[target.phase_ref] if amt > 0 else \
+            {'s': 'g', 'l': 's', 'g': 'l'}[target.phase_ref]
+        elif kind == 'reset':
+            getattr(target.Cn, ph).add_method(20.0 + abs(amt) / 100.0 + step); target.reset_free_energies()
+        elif kind == 'cmf':
+            # Chemical.copy_models_from with an explicit name list: the heat capacities of another chemical
+            other = tmo.Chemical('Methanol' if target.ID != 'Methanol' else 'Ethanol', cache=False)
+            try:
+                target.copy_models_from(other, ['Cn'] if step % 2 == 0 else ['Cn', 'Hvap'])
+            except TypeError:
+                tags.append('mixupd-skip:cmf:thermo-cannot-integrate')      # raised by the dependency inside _init_energies
+        else: raise ValueError('unknown update ' + kind)
+        after = {kd: _try(lambda kd=kd: pure(kd)) for kd in ('H', 'S', 'Cn')}
+        if any(before[kd] != after[kd] for kd in before): tags.append('mixupd:pure-values-changed:' + kind)
+        else: tags.append('mixupd:no-effect:' + kind)
+        if any_reset and kind not in RESET_KINDS: kind = 'reset'      # signature: a reset happened somewhere in the history
+        if step < len(history) - 1: evaluate('after', n)
+    if any_reset: kind = 'reset'
     evaluate('after', n)                      # same composition, same (phase, T, P)
     evaluate('after', [k * a for a in n])     # other composition, same (phase, T, P)
     # a brand-new stream on the same thermo object sees the current data
@@ -994,6 +1027,7 @@ def _run_ops(ops):
             sess = Session(get_chem(tuple(t[1:])), tuple(t[1:]))
             if any(tok.startswith('Tref=') for tok in t): tags.append('reference-conditions-varied')
             tags.append('chem:' + t[1] + ':' + (sess.c.locked_state and 'locked' or sess.c.phase_ref))
+            if t[1] == 'cmf': tags.append('copy_models_from:' + t[5])
             if t[1] == 'copy': tags.append(f'copy-history:{t[4]}:{t[5]}')
             if t[1] == 'lock': tags.append('lock-route:' + (t[4] if len(t) > 4 else 'ctor') + ':' + t[3])
             for l in sess.head(): emit(l, 'ok')
@@ -1255,7 +1289,7 @@ def gen_chem_case(rng):
     ref = rng.choice('slg')
     if r < 0.34: spec = f'db {ID} {ref}'
     elif r < 0.54: spec = f'ctor {ID} {ref}'
-    elif r < 0.64:
+    elif r < 0.62:
         base = get_chem(('db', ID, ref))
         Tm = round(base.Tm * rng.uniform(0.7, 1.4), 2)
         Tb = round(min(base.Tb * rng.uniform(0.75, 1.25), 0.93 * (base.Tc or 1e9)), 2)
@@ -1263,7 +1297,11 @@ def gen_chem_case(rng):
         spec = f'set {ID} {ref} {Tm if q < 0.7 else "-"} {Tb if q > 0.35 else "-"}'
         if rng.random() < 0.25: spec += f' Sfus={round(rng.uniform(5, 80), 3)}'
         if rng.random() < 0.35: spec += f' Hfus={round(base.Hfus * rng.uniform(0.5, 1.6) + 10.0, 1)}'
-    elif r < 0.71:
+    elif r < 0.68:
+        other = rng.choice([x for x in UNIVERSE if x != ID])
+        names = rng.choice(['Cn', 'Hvap', 'Cn+Hvap', 'V+Cn', 'Hvap+Psat', 'V', 'auto', 'auto'])
+        spec = f'cmf {ID} {ref} {other} {names}'
+    elif r < 0.72:
         variant = rng.choice(['none', 'orig-reset', 'orig-reset', 'copy-reset', 'copy-noreset', 'copy-noreset'])
         subject = 'A' if variant == 'copy-reset' and rng.random() < 0.5 else 'B'
         spec = f'copy {ID} {ref} {variant} {subject} {rng.choice("slg")} {rng.randrange(6)}'
@@ -1285,7 +1323,16 @@ def gen_chem_case(rng):
         if rng.random() < 0.3:
             spec += f' Tref={rng.choice([273.15, 300.0, round(rng.uniform(200, 400), 2)])} Href={rng.choice([0.0, 1000.0, -52000.5])}'
     ops = ['chem ' + spec]
-    c = get_chem(tuple(spec.split(' ')))
+    try:
+        c = get_chem(tuple(spec.split(' ')))
+        if spec.startswith('cmf ') and not complete(c): raise ValueError('incomplete')
+    except Exception:
+        # the dependency cannot integrate the borrowed heat capacity between this chemical's reference temperatures (thermo
+        # raises inside _init_energies): such a pair is outside the universe of chemicals with complete data
+        if not spec.startswith('cmf '): raise
+        spec = f'db {ID} {ref}'
+        ops = ['chem ' + spec]
+        c = get_chem(tuple(spec.split(' ')))
     ops.append('wiring')
     phases = [c.locked_state] if c.locked_state else list('slg')
     for _ in range(rng.randrange(2, 6)):
@@ -1367,6 +1414,11 @@ def gen_mixupd_case(rng):
     n = [rng.choice([0.0, 1.0, 2.0, 0.5, 3.25, round(rng.uniform(0, 50), 3)]) for _ in ids]
     j = rng.randrange(len(ids))
     if not n[j]: n[j] = 1.5                        # the updated chemical is present
+    if rng.random() < 0.5:
+        # a history of two or three edits after the mixture exists (the same setter twice included)
+        more = [rng.choice(['Tb', 'Tm', 'phase_ref', 'reset', 'cmf', 'Hfus', 'Cn', 'S0', kind]) for _ in range(rng.randrange(1, 3))]
+        kind = '+'.join([kind] + more)
+    elif rng.random() < 0.1: kind = 'cmf'
     amount = rng.choice([500.0, -250.0, round(rng.uniform(100, 5000), 1)])
     k = rng.choice([2.0, 0.5, 3.5])
     return Case([f'mixupd {",".join(ids)} {ph} {T} {P} {",".join(map(repr, n))} {kind} {j} {amount} {k}'], {})
@@ -1447,6 +1499,12 @@ def corpus():
               'o:deriv l 320.0 101325.0', 'o:jumpTb']),
         Case(['chem copy Ethanol l copy-noreset B l 1', 'o:ref', 'o:deriv l 320.0 101325.0']),
         Case(['chem copy Water g copy-reset A g 0', 'wiring', 'o:ref', 'o:deriv g 400.0 101325.0', 'o:jumpTb']),
+        # Chemical.copy_models_from: explicit names and automatic mode (seeded change C07-10)
+        Case(['chem cmf Water l Ethanol Cn', 'wiring', 'H l 340.0 101325.0', 'o:ref', 'o:deriv l 330.0 101325.0', 'o:deriv g 420.0 101325.0',
+              'o:jumpTb', 'o:jumpTm']),
+        Case(['chem cmf Ethanol g Water Cn+Hvap', 'wiring', 'o:ref', 'o:deriv l 330.0 101325.0', 'o:jumpTb']),
+        Case(['chem cmf Water l Methanol Hvap', 'wiring', 'o:jumpTb']),
+        Case(['chem cmf Water l Ethanol auto', 'wiring', 'H g 400.0 101325.0', 'o:ref', 'o:deriv l 330.0 101325.0', 'o:jumpTb', 'o:jumpTm']),
         # the alias phase labels 'L' (second liquid phase) and 'S' (seeded change C07-6)
         Case(['chem db Water l', 'wiring', 'H L 320.0 101325.0', 'S L 320.0 101325.0', 'H S 250.0 101325.0', 'o:ref',
               'o:deriv L 320.0 101325.0', 'o:alias 320.0 101325.0']),
@@ -1468,6 +1526,10 @@ def corpus():
         Case(['mixupd Water,Ethanol s 250.0 101325.0 2.0,3.0 Tm 0 -2630.0 2.0']),
         Case(['mixupd Water,Ethanol g 400.0 101325.0 2.0,3.0 phase_ref 0 500.0 0.5']),
         Case(['mixupd Water,Ethanol l 320.0 101325.0 2.0,3.0 reset 1 13000.0 3.5']),
+        # histories of several edits after the mixture exists (seeded change C07-9), copy_models_from (C07-10)
+        Case(['mixupd Water,Ethanol g 400.0 101325.0 2.0,3.0 Tb+Tb+phase_ref 0 687.5704152 2.0']),
+        Case(['mixupd Water,Ethanol l 330.0 101325.0 2.0,3.0 Tm+Hfus+Tb 0 -2630.0 0.5']),
+        Case(['mixupd Water,Ethanol l 330.0 101325.0 2.0,3.0 cmf+cmf 1 500.0 2.0']),
         # the doctest composition of IdealEntropyModel
         Case(['mix Water,Ethanol l 350.0 101325.0 0.0,1.0 1.0,0.0 2.0']),
     ]
